@@ -835,6 +835,60 @@ theorem unshared_group_edit_needs_hypotheses :
      (hit2 ["a1", "a2"] ["b3", "b4"], hit2 ["a1", "a2", "a5"] ["b3", "b4"], hit2 ["a1", "a5"] ["b3"]) = (false, true, false)) := by
   refine ⟨by decide, by decide, by decide⟩
 
+/-! ## 14. F-C01d and F-C01e: two further paths with twin groups (found by the final thorough run)
+
+F-C01d: the adopted group WAS referenced.  `findGroupOnDevice` (early loop) adopts `g0-DRC-0` for the inserted copy of
+a moved line; the kept line with the twin `g0-DRC-8` re-maps the target's `g0`; the inserted line is printed with
+`g0-DRC-8`, so it is no move of the old line (other group name), the old line is deleted, and `g0-DRC-0` — still
+`needed` — stays without a reference until the next run.
+F-C01e: twins used alternately by kept lines (`g0`, `g0-DRC-8`, `g0`): the second pair re-maps the target's `g0` to
+`g0-DRC-8`, the third pair finds `g0` `needed` and the target group `ready` under another name → the line is
+replaced.  A device that IS equivalent to the target gets a non-empty script (the next comparison is empty). -/
+
+def y1Line (g : String) : Line := ⟨["permit ip object-group ", " 10.3.3.0 255.255.255.0"], ["permit ip object-group ", " 10.3.3.0 255.255.255.0"], [g]⟩
+def y2Line (g : String) : Line := ⟨["permit ip object-group ", " any4"], ["permit ip object-group ", " any4"], [g]⟩
+def y3Line : Line := ⟨["permit tcp any4 any4 eq 80"], ["permit tcp any4 any4 eq 80"], []⟩
+def exDDev : Config :=
+  { intfs := ["outside"], groups := [("g0-DRC-8", ["host 10.1.1.2"]), ("g0-DRC-0", ["host 10.1.1.2"])],
+    acls := [("outside_in", [y1Line "g0-DRC-8", y3Line, y2Line "g0-DRC-0"])], binds := [⟨"outside_in", "in", "outside"⟩] }
+def exDTgt : Config :=
+  { groups := [("g0", ["host 10.1.1.2"])], acls := [("outside_in", [y2Line "g0", y1Line "g0", y3Line])], binds := [⟨"outside_in", "in", "outside"⟩] }
+def exDScripts : Scripts :=
+  { acl := [(("outside_in", "outside_in"), [⟨0, 0, 0, 1⟩, ⟨0, 2, 1, 3⟩, ⟨2, 3, 3, 3⟩])],
+    grp := [(("g0-DRC-8", "g0"), [⟨0, 1, 0, 1⟩]), (("g0-DRC-0", "g0"), [⟨0, 1, 0, 1⟩])] }
+def exDScripts2 : Scripts := { acl := [(("outside_in", "outside_in"), [⟨0, 3, 0, 3⟩])], grp := exDScripts.grp }
+
+/-- **`adopted_referenced_group_counterexample`** (F-C01d). -/
+theorem adopted_referenced_group_counterexample :
+    (engine exDDev exDTgt exDScripts).map (fun r => showChanges r.script) = some [
+      "access-list outside_in line 1 extended permit ip object-group g0-DRC-8 any4",
+      "no access-list outside_in line 4 extended permit ip object-group g0-DRC-0 any4"] ∧
+    ((engine exDDev exDTgt exDScripts).bind fun r => (exec (ofConfig exDDev) r.script).map fun d =>
+      (leftovers d, (engine (toConfig d) exDTgt exDScripts2).map (fun r => showChanges r.script))) =
+      some (["object-group g0-DRC-0"], some ["no object-group network g0-DRC-0"]) := by
+  constructor <;> decide
+
+def zLine (p g : String) : Line := ⟨["deny tcp host 10.1.1.1 object-group ", " eq " ++ p], ["deny tcp host 10.1.1.1 object-group ", " eq " ++ p], [g]⟩
+def exEDev : Config :=
+  { intfs := ["dmz"], groups := [("g0", ["host 10.4.4.4"]), ("g0-DRC-8", ["host 10.4.4.4"])],
+    acls := [("dmz_in", [zLine "22" "g0", zLine "443" "g0-DRC-8", zLine "25" "g0"])], binds := [⟨"dmz_in", "in", "dmz"⟩] }
+def exETgt : Config :=
+  { groups := [("g0", ["host 10.4.4.4"])], acls := [("dmz_in", [zLine "22" "g0", zLine "443" "g0", zLine "25" "g0"])], binds := [⟨"dmz_in", "in", "dmz"⟩] }
+def exEScripts : Scripts :=
+  { acl := [(("dmz_in", "dmz_in"), [⟨0, 3, 0, 3⟩])], grp := [(("g0", "g0"), [⟨0, 1, 0, 1⟩]), (("g0-DRC-8", "g0"), [⟨0, 1, 0, 1⟩])] }
+
+/-- **`alternating_twin_groups_counterexample`** (F-C01e): device and target are equivalent (identity scripts), the pair is
+outside class ISO (the groups are not paired one to one), the engine re-points the third line to the twin; the
+comparison after that is empty. -/
+theorem alternating_twin_groups_counterexample :
+    isoCheck exEDev exETgt exEScripts = false ∧
+    (engine exEDev exETgt exEScripts).map (fun r => showChanges r.script) = some [
+      "access-list dmz_in line 3 extended deny tcp host 10.1.1.1 object-group g0-DRC-8 eq 25",
+      "no access-list dmz_in line 4 extended deny tcp host 10.1.1.1 object-group g0 eq 25"] ∧
+    ((engine exEDev exETgt exEScripts).bind fun r => (exec (ofConfig exEDev) r.script).map fun d =>
+      (engine (toConfig d) exETgt exEScripts).map (fun r => showChanges r.script)) = some (some []) := by
+  refine ⟨by decide, by decide, by decide⟩
+
 def obligations : List Lean.Name := [
   ``names_fresh, ``names_injective, ``findGroup_sound, ``findGroup_first,
   ``group_equalize_converges, ``group_edit_emits_memOps, ``group_needed_never_edited, ``group_edit_only_if_small,
@@ -848,6 +902,7 @@ def obligations : List Lean.Name := [
   ``asa_F1_subcommands_in_own_mode, ``asa_F1_member_command_in_parent_mode, ``asa_F1_no_referenced_object_deleted,
   ``two_routes_one_prefix_outside_spec, ``k2_not_closed_under_prefix,
   ``asa_group_edit_before_lines_counterexample, ``needed_group_of_replaced_line_counterexample,
-  ``asa_unshared_group_edit_states_bounded, ``asa_unshared_group_edit_keeps_agreed_verdicts, ``unshared_group_edit_needs_hypotheses]
+  ``asa_unshared_group_edit_states_bounded, ``asa_unshared_group_edit_keeps_agreed_verdicts, ``unshared_group_edit_needs_hypotheses,
+  ``adopted_referenced_group_counterexample, ``alternating_twin_groups_counterexample]
 
 end NA.F1
